@@ -162,12 +162,23 @@ package syncer
 //@   ensures all_projected: r0 == nil ==> ghost_loc_pending == 0
 //@   ensures dirty_only_set: ghost_dirty == old(ghost_dirty) || ghost_dirty == 1
 
+// deletedCutoff: no cutoff without the sweeper; otherwise the given time minus
+// the configured retention (less the load margin), as a header timestamp.
 //@ func (s *Syncer) deletedCutoff
-//@   trusted
 //@   pure
+//@   ensures disabled_means_no_cutoff: !s.c.Sweeper.Enabled ==> r0 == 0
+//@   after_call config.(Sweeper).RetentionDurationMinusCutoff#0 ghost loc_retention := uint64(ret0)
+//@   at_call time.(Time).Add#0 assert counts_back_from_the_given_time: arg0.wall == now.wall && arg0.ext == now.ext && uint64(arg1) == 0 - ghost_loc_retention
+//@   after_call time.(Time).Add#0 ghost loc_cutWall := ret0.wall
+//@   after_call time.(Time).Add#0 ghost loc_cutExt := ret0.ext
+//@   at_call header.TimestampFromTime#0 assert converts_that_time: arg0.wall == ghost_loc_cutWall && arg0.ext == ghost_loc_cutExt
+//@   after_call header.TimestampFromTime#0 ghost loc_cutTS := uint64(ret0)
+//@   ensures enabled_returns_that_timestamp: s.c.Sweeper.Enabled ==> uint64(r0) == ghost_loc_cutTS
 
 //@ func (s *Syncer) LoadOnce
 //@   requires inv: ghostInv()
+//@   after_call time.Now#0 ghost loc_t0Wall := ret0.wall
+//@   after_call time.Now#0 ghost loc_t0Ext := ret0.ext
 //@   requires not_in_txn: ghost_inTxn == 0
 //@   requires synced_le_last: uint64(lastTxnID) <= ghost_last
 //@   requires synced_unpub: !s.opt.ReceiveOnly ==> uint64(lastTxnID) < ghost_unpub
@@ -196,13 +207,14 @@ package syncer
 // Configuration is fixed when the Syncer is constructed.
 //@ immutable Syncer.c, Syncer.lc, Syncer.opt, Syncer.name, Syncer.hooks
 
+// instanceID and generationID depend on the (immutable) configuration only.
 //@ func (s *Syncer) instanceID
 //@   trusted
-//@   pure
+//@   function
 
 //@ func (s *Syncer) generationID
 //@   trusted
-//@   pure
+//@   function
 
 //@ func (s *Syncer) SendOnce
 //@   requires inv: ghostInv()
@@ -212,6 +224,8 @@ package syncer
 //@   modifies *, s.lastSnapshotTime
 //@   at_call cleaner.(*Worker).SetCommitted#0 assert only_after_store: ghost_nstore == old(ghost_nstore) + 1
 //@   at_call logrus.FieldLogger.WithError#1 assert gives_up_only_without_retry_forever: !s.c.StorageRetryForever
+//@   at_call snapshot.(NameInfo).BuildName#0 assert name_names_database_and_instance: s.hooks.UpdateSnapshotInfo == nil ==> sameSlice(arg0.SyncerName, s.name) && sameSlice(arg0.InstanceID, s.instanceID())
+//@   at_call snapshot.DumpData#0 assert meta_names_database_and_instance: s.hooks.UpdateSnapshotInfo == nil && s.hooks.BeforeRead == nil ==> sameSlice(arg0.Meta.DatabaseName, s.name) && sameSlice(arg0.Meta.InstanceID, s.instanceID())
 //@   at_call snapshot.(NameInfo).BuildName#0 assert name_carries_txn_time: s.hooks.UpdateSnapshotInfo == nil ==> arg0.Timestamp.wall == ghost_loc_nowWall && arg0.Timestamp.ext == ghost_loc_nowExt
 //@   loop 0 invariant not_stored: ghost_nstore == old(ghost_nstore)
 //@   loop 0 invariant inv: ghostInv()
@@ -306,6 +320,14 @@ package syncer
 // iterator writes the id of this transaction.
 //@ func (s *Syncer) LoadOnce$1
 //@   noswallow
+//@   after_call time.Now#0 ghost loc_nowWall := ret0.wall
+//@   after_call time.Now#0 ghost loc_nowExt := ret0.ext
+//@   at_call header.TimestampFromTime#0 assert detection_time_read_inside_txn: arg0.wall == ghost_loc_nowWall && arg0.ext == ghost_loc_nowExt
+//@   after_call header.TimestampFromTime#0 ghost loc_tsNano := uint64(ret0)
+//@   at_call syncer.(*Syncer).mainToShadow#0 assert stamped_with_detection_time: uint64(arg3) == ghost_loc_tsNano
+//@   at_call syncer.(*Syncer).deletedCutoff#0 assert cutoff_counts_from_this_load: (arg1.wall == ghost_loc_t0Wall && arg1.ext == ghost_loc_t0Ext) || (arg1.wall == ghost_loc_nowWall && arg1.ext == ghost_loc_nowExt)
+//@   after_call syncer.(*Syncer).deletedCutoff#0 ghost loc_cutoff := uint64(ret0)
+//@   at_call syncer.NewNativeIterator#0 assert uses_that_cutoff: uint64(arg5) == ghost_loc_cutoff
 //@   loop 0 ghost loc_cancelled := 0
 //@   after_call utils.IsCanceled#0 ghost loc_cancelled := ite(ret0, 1, 0)
 //@   ensures cancellation_aborts_the_transaction: ghost_loc_cancelled == 1 ==> r0 != nil
@@ -402,11 +424,15 @@ package syncer
 // are never dumped raw; the snapshot time is taken inside the transaction.
 //@ func (s *Syncer) SendOnce$1
 //@   noswallow
+//@   assumes capture_flag_starts_at_zero: ghost_loc_captured == 0
+//@   after_call syncer.(*Syncer).mainToShadow#0 ghost loc_captured := ite(ret0 == nil, 1, 0)
+//@   ensures shadow_mode_always_captures_first: r0 == nil && !schemaTracksChanges ==> ghost_loc_captured == 1
 //@   after_call time.Now#0 ghost loc_nowWall := ret0.wall
 //@   after_call time.Now#0 ghost loc_nowExt := ret0.ext
 //@   at_call header.TimestampFromTime#0 assert snapshot_time_read_inside_txn: arg0.wall == ghost_loc_nowWall && arg0.ext == ghost_loc_nowExt
 //@   after_call header.TimestampFromTime#0 ghost loc_tsNano := uint64(ret0)
 //@   ensures meta_carries_that_time: r0 == nil ==> msg.Meta.TimestampNano == ghost_loc_tsNano
+//@   at_call syncer.(*Syncer).mainToShadow#0 assert stamped_with_detection_time: uint64(arg3) == ghost_loc_tsNano
 //@   after_call lmdbenv.ReadDBINames#0 ghost loc_needDump := 0
 //@   after_call strings.HasPrefix#0 ghost loc_needDump := ite(ret0, 0, 1)
 //@   after_call syncer.(*Syncer).readDBI#0 ghost loc_needDump := 0
